@@ -4,6 +4,8 @@ package main
 
 import (
 	"bufio"
+	"crypto/sha256"
+	"encoding/hex"
 	"encoding/json"
 	"fmt"
 	"math/big"
@@ -217,6 +219,7 @@ type Exec struct {
 	branches map[string]int // coverage: distinct (op, outcome-class) keys
 	fam      map[string]interface{}
 	notes    []string
+	twin     bool     // replica mode (C11): outputs carry a state digest and a hash of error texts
 	nested   bool     // a metamorphic re-run: end-of-scenario monitors are off
 	scLines  []string // op lines of the current scenario (after its reset line)
 	scOut    []string // their outputs
@@ -297,6 +300,10 @@ func (x *Exec) run(lines []string) {
 			x.cover(toks[0] + "/" + cls)
 		}
 		wd.Stop()
+		if x.twin && len(toks) > 0 && (strings.HasPrefix(out, "ok") || strings.HasPrefix(out, "err") || strings.HasPrefix(out, "panic") || strings.HasPrefix(out, "valid")) {
+			out += " dg=" + x.stateDigest() + " etx=" + shortHash(strings.Join(catchMsgs, "|"))
+		}
+		catchMsgs = nil
 		fmt.Fprintln(x.out, out)
 		if !(len(toks) > 0 && toks[0] == "reset") {
 			x.scOut = append(x.scOut, out)
@@ -326,15 +333,59 @@ func catch(fn func() error) (res string, msg string) {
 		if r := recover(); r != nil {
 			res = "panic"
 			msg = fmt.Sprint(r)
+			catchMsgs = append(catchMsgs, "panic:"+msg)
 			if os.Getenv("VERIF_DEBUG") != "" {
 				fmt.Fprintf(os.Stderr, "recovered panic: %v\n%s\n", r, debug.Stack())
 			}
 		}
 	}()
 	if err := fn(); err != nil {
+		catchMsgs = append(catchMsgs, err.Error())
 		return "err", err.Error()
 	}
 	return "ok", ""
+}
+
+// error / panic texts seen while executing the current op (replica mode compares their hash)
+var catchMsgs []string
+
+func shortHash(s string) string {
+	h := sha256.Sum256([]byte(s))
+	return hex.EncodeToString(h[:6])
+}
+
+// digest of everything the scenario has written to the custom-module, bank and auth stores
+// (entries that differ from the shared base state; the base itself contains per-process random
+// validator keys and is therefore not comparable between processes)
+func (x *Exec) stateDigest() string {
+	h := sha256.New()
+	for _, k := range []string{"cfevesting", "cfeminter", "cfedistributor", "cfesignature", "bank", "acc"} {
+		key := x.env.app.GetKey(k)
+		if key == nil {
+			continue
+		}
+		base := x.env.baseCtx.KVStore(key)
+		cur := x.ctx.KVStore(key)
+		it := cur.Iterator(nil, nil)
+		for ; it.Valid(); it.Next() {
+			if bv := base.Get(it.Key()); bv == nil || string(bv) != string(it.Value()) {
+				h.Write(it.Key())
+				h.Write([]byte{0})
+				h.Write(it.Value())
+				h.Write([]byte{1})
+			}
+		}
+		it.Close()
+		bit := base.Iterator(nil, nil)
+		for ; bit.Valid(); bit.Next() {
+			if !cur.Has(bit.Key()) {
+				h.Write(bit.Key())
+				h.Write([]byte{2})
+			}
+		}
+		bit.Close()
+	}
+	return hex.EncodeToString(h.Sum(nil)[:8])
 }
 
 // deliver: baseapp semantics for one message — ValidateBasic, then the handler on a cache
